@@ -112,17 +112,24 @@ func (p *parallelSolverWrapperImpl) Solve(
 		if err != nil {
 			return nil, err
 		}
+		constructionErrors := make([]error, interpretedParallelSolveOptions.StartSolutions)
 		for idx := 0; idx < interpretedParallelSolveOptions.StartSolutions; idx++ {
 			go func(idx int, sol Solution) {
 				defer wg.Done()
 				randomSolution, err := RandomSolutionConstruction(ctx, sol)
 				if err != nil {
-					panic(err)
+					constructionErrors[idx] = err
+					return
 				}
 				initialSolutions[idx] = randomSolution
 			}(idx, solution.Copy())
 		}
 		wg.Wait()
+		for _, err := range constructionErrors {
+			if err != nil {
+				return nil, err
+			}
+		}
 		startSolutions = append(startSolutions, initialSolutions...)
 	}
 
